@@ -1,6 +1,7 @@
 """C04 — a failed, interrupted or ambiguous commit never damages committed data."""
 from __future__ import annotations
 
+import os
 import random
 from typing import List, Optional
 
@@ -57,7 +58,8 @@ def gen(rng: random.Random, tier: str, idx: int) -> dict:
             setup.append({"kind": "append", "tag": f"s{k}", "n": rng.randint(1, 2)})
         else:
             setup.append({"kind": "multi", "tag": f"s{k}", "n": 1})
-    return {"backend": backend, "op": name, "mode": mode, "setup": setup, "fault_points": None,
+    survive = mode.endswith(":KeyboardInterrupt") and rng.random() < 0.4
+    return {"backend": backend, "op": name, "mode": mode, "setup": setup, "fault_points": None, "survive": survive,
             "sample_k": 6 if tier == "quick" else None, "k_seed": rng.randrange(1 << 30)}
 
 
@@ -147,6 +149,7 @@ def _run(plan, scratch, seed, snap, faults, gap, line_fault=None):
     ops = [op_under_test(plan["op"]), {"kind": "sleep", "dt": gap}, {"kind": "scan", "api": "scan"},
            {"kind": "append", "tag": "fu1", "n": 1}]
     ctx = ph.actor("px", "ut", ops)
+    ctx.survive_interrupt = bool(plan.get("survive"))
     if line_fault is not None:
         ctx.line_fault = line_fault
         ph.world.on_flip.append(lambda fl: line_fault.setdefault("flip_at", line_fault.get("count", 0)))
@@ -205,6 +208,38 @@ def execute(plan: dict, scratch: str, replay: Optional[dict] = None) -> dict:
     res = common.merge_results(results, plan, cfg)
     common.shutil.rmtree(scratch, ignore_errors=True)
     return res
+
+
+_AST_CACHE: dict = {}
+
+
+def _interrupt_site(fired: dict) -> str:
+    """Class of the source line a line-level interrupt was injected at: 'release_entry' = the first line of a `finally:`
+    suite (or of the release helper that suite calls) - the exception arrives when the only code that could release the
+    lock has not started yet; 'other' = anywhere else."""
+    import ast
+    import datashard
+    try:
+        fname, line = fired["target"].rsplit(":", 1)
+        line = int(line)
+        path = os.path.join(os.path.dirname(datashard.__file__), fname)
+        if path not in _AST_CACHE:
+            _AST_CACHE[path] = ast.parse(open(path).read())
+        for node in ast.walk(_AST_CACHE[path]):
+            if isinstance(node, ast.Try) and node.finalbody:
+                releases = any(isinstance(c, ast.Call) and isinstance(c.func, ast.Attribute)
+                               and c.func.attr in ("_release_lock_safely", "release")
+                               for fb in node.finalbody for c in ast.walk(fb))
+                if releases and node.finalbody[0].lineno <= line <= getattr(node.finalbody[-1], "end_lineno",
+                                                                           node.finalbody[-1].lineno):
+                    return "release_entry"
+            if isinstance(node, ast.FunctionDef) and node.name == "_release_lock_safely":
+                first_stmt = [n for n in node.body if not (isinstance(n, ast.Expr) and isinstance(getattr(n, "value", None), ast.Constant))]
+                if first_stmt and node.lineno <= line <= first_stmt[0].lineno:
+                    return "release_entry"
+    except Exception:
+        return "unknown"
+    return "other"
 
 
 def _op_end_step(ph) -> int:
@@ -348,6 +383,18 @@ def _one(plan, scratch, seed, snap, k, pre, cfg, gap) -> dict:
         if fu and fu[0]["outcome"] != "ok":
             bad("D.same_handle_unwritable", f"append through the same handle after the fault raised "
                                             f"{fu[0].get('exc')}: {fu[0].get('msg')}")
+
+    elif rec.get("survived"):
+        # the interrupted process lives on (Ctrl-C in a REPL): through a NEW handle it must still read and write
+        sc = [h for h in w.history if h["op"]["kind"] == "scan"]
+        if sc and sc[0]["outcome"] != "ok":
+            bad("D.survivor_unreadable", f"scan from the process that survived the interrupt raised {sc[0].get('exc')}: {sc[0].get('msg')}")
+        if fu and fu[0]["outcome"] != "ok":
+            site = _interrupt_site(first) if first is not None and first["kind"] == "line_interrupt" else "seam"
+            bad("D.survivor_unwritable", f"append from the process that survived the interrupt raised {fu[0].get('exc')}: "
+                                         f"{(fu[0].get('msg') or '')[:200]} (interrupt landed at {first.get('target') if first else '?'}: {site})")
+            if site == "release_entry":
+                V[-1]["sig"] = "D.survivor_unwritable|release_entry"
 
     # ---- fresh process
     ph2 = Phase(plan, scratch, backend, seed ^ 0xBEEF, core.Policy(), start=sim.now + gap, store=w.store)
